@@ -42,6 +42,10 @@ def pts(rng, dtype, n=NB):
     v = np.where(rng.random(n) < 0.7, rng.uniform(0.02, 0.8, n), rng.uniform(0.8, 2.0, n))
     K = np.where(rng.random(n) < 0.4, 1.0, 10 ** rng.uniform(-0.95, 1, n))
     u = rng.random(n)
+    # a term structure through the strike: some points exactly at the money, a few already expired / with no volatility left (in the same batch)
+    s = np.where(rng.random(n) < 0.06, 0.0, s)
+    tt = np.where(rng.random(n) < 0.03, 0.0, tt)
+    v = np.where(rng.random(n) < 0.02, 0.0, v)
     m = np.where(u < 0.25, s, np.where(u < 0.65, s + rng.uniform(0, 0.5, n), np.maximum(s, rng.uniform(-0.2, 0.3, n))))
     m = np.where((rng.random(n) < 0.12) & (s < 0), 0.0, np.maximum(m, s))
     return [t(z, dtype) for z in (s, tt, v, K, m)]
